@@ -752,7 +752,7 @@ P('C20-C', 'C20', 'C20.R1'); P('C20-D', 'C20', 'C20.R2')
 ALL_PROPS = ['C%02d' % i for i in range(1, 21)]
 for _r in ('R1-1', 'R1-2', 'R1-3', 'R1-4', 'R2-1', 'R2-2', 'R2-3', 'R2-4', 'R3-1', 'R3-2', 'R3-3', 'R3-4', 'R4-1', 'R4-2', 'R4-3', 'R4-4',
            'R6-1', 'R6-2', 'R6-3', 'R6-4', 'R7-1', 'R7-2', 'R7-3', 'R7-4', 'R8-1', 'R8-2', 'R8-3', 'R9-1', 'R9-2', 'R9-3', 'R9-4',
-           'R10-1', 'R10-2', 'R10-3', 'R10-4', 'R11-1', 'R12-1', 'R12-2', 'R13-1', 'R13-2', 'R13-3', 'R13-4'):
+           'R10-1', 'R10-2', 'R10-3', 'R10-4', 'R11-1', 'R11-2', 'R11-3', 'R11-4', 'R12-1', 'R12-2', 'R12-3', 'R13-1', 'R13-2', 'R13-3', 'R13-4'):
     CORPUS.append({'id': 'S/' + _r + '-silent', 'props': ALL_PROPS, 'rule': None, 'expect': 'silent', 'edits': [],
                    'patch': 'seeded_benign/%s/patch.diff' % _r, 'tolerate_rekeyed': True})
 
